@@ -132,6 +132,7 @@ def compile_xpath(text: str) -> Any:
 
 
 def check_text(data: dict, lab: Labels) -> None:
+    import pyoak.legacy.node  # noqa: F401  (its node classes share the name table; they are no ASTNode subclasses)
     from pyoak.match import pattern as PM
     from pyoak.match import xpath as XM
 
@@ -337,6 +338,8 @@ def st_texts(ctx: Ctx):
         ("unknown class", "(Nope)"), ("unknown class", "(LeafA | Nope @v)"), ("unknown class", "(Mixed @child=(Nope))"),
         ("non-node class", "(CodeOrigin)"), ("non-node class", "(Source @source_uri)"), ("non-node class", "(LeafA|MultiOrigin)"),
         ("non-node class", "(Mixed @items=[(CodeRange) *])"),
+        # (node classes of the *legacy* package are in the same name table and are no ASTNode subclasses)
+        ("non-node class", "(AwareASTNode)"), ("non-node class", "(LeafA | AwareASTNode @v)"),
         ("capture twice", "(Mixed @child -> a @items -> a)"), ("capture twice", "(Mixed @items=[(*) -> a (*) -> a])"),
         ("capture twice", "(Mixed @child=(LeafA @v -> a) -> a)"), ("capture twice", "(Mixed @items=[(*) -> a * -> a])"),
         ("variable before capture", "(Mixed @child=$a @items -> a)"), ("variable before capture", "(Mixed @items=[$a (*) -> a])"),
@@ -364,7 +367,7 @@ def st_texts(ctx: Ctx):
             lambda t: {"kind": "huge-index", "lang": "xpath", "expect": None,
                        "text": "/Mixed/@items[" + t[1] * t[0] + "1]LeafA"}))
     ill_xp = st.sampled_from([
-        ("unknown class", "//Nope"), ("unknown class", "/Mixed/@items[0]Nope"), ("non-node class", "//CodeOrigin"),
+        ("unknown class", "//Nope"), ("unknown class", "/Mixed/@items[0]Nope"), ("non-node class", "//CodeOrigin"), ("non-node class", "//AwareASTNode"), ("non-node class", "/Mixed/@items AwareASTNode"),
         ("non-node class", "/Source"), ("non-node class", "//Mixed/MultiOrigin"), ("syntax", "//"), ("syntax", "/"),
         ("syntax", ""), ("syntax", "/@"), ("syntax", "/Mixed/@items[a]LeafA"), ("syntax", "/Mixed[1"), ("syntax", "Mixed//"),
         ("syntax", "/@items[1]"), ("syntax", "/Mixed/@items[-1]LeafA"), ("syntax", "/Mixed/@items[*]LeafA"),
